@@ -81,7 +81,7 @@ type Desc struct {
 	InitPN      *uint64  `json:"init_pn,omitempty"`
 	PNLen       *int     `json:"pn_len,omitempty"`  // single value
 	PNLens      []int    `json:"pn_lens,omitempty"` // list (overrides PNLen)
-	TokenMode   string   `json:"token,omitempty"`   // "" keep | none | len | prefix
+	TokenMode   string   `json:"token,omitempty"`   // "" keep | none | len | prefix | store (explicit token = TokenPrefix)
 	TokenLen    int      `json:"token_len,omitempty"`
 	TokenPrefix []byte   `json:"token_prefix,omitempty"`
 	Builder     *Builder `json:"builder,omitempty"`
@@ -92,6 +92,12 @@ type Desc struct {
 	Suppress    []uint64 `json:"suppress,omitempty"`
 	ExtraCH     int      `json:"extra_ch,omitempty"` // bytes of an extra (ignored) ClientHello extension: grows the flight
 }
+
+// fixedTokenStore is an explicit TokenStore that hands out the same token for every connection.
+type fixedTokenStore struct{ data []byte }
+
+func (f fixedTokenStore) Pop(string) *quic.ClientToken { return quic.NewClientToken(f.data) }
+func (f fixedTokenStore) Put(string, *quic.ClientToken) {}
 
 func items(fs []FrameItem) quic.QUICFrames {
 	var out quic.QUICFrames
@@ -145,6 +151,8 @@ func (d Desc) Build() (*quic.QUICSpec, error) {
 		ips.TokenStore, ips.ClientTokenLength, ips.ClientTokenPrefix = nil, d.TokenLen, nil
 	case "prefix":
 		ips.TokenStore, ips.ClientTokenLength, ips.ClientTokenPrefix = nil, d.TokenLen, d.TokenPrefix
+	case "store":
+		ips.TokenStore, ips.ClientTokenLength, ips.ClientTokenPrefix = fixedTokenStore{d.TokenPrefix}, 0, nil
 	}
 	if d.Builder != nil {
 		b := d.Builder
@@ -240,6 +248,7 @@ type Options struct {
 	CHLen      func(d Desc) (lo, hi int) // bounds of the ClientHello length of a description (it varies per dial)
 	HeaderOnly bool // only header-level knobs (no builder edits)
 	SuppressAny bool // also suppress flow-control / stream-count parameters
+	BigPN       bool // also draw first packet numbers near and beyond 2^62-1
 }
 
 // Gen draws a derived spec description. chLen must return the ClientHello length of (base, extra) — needed to
@@ -261,7 +270,11 @@ func Gen(t *rapid.T, o Options) Desc {
 	// length that can represent them; small ones (< 60) work with every length.
 	pnBig := false
 	if rapid.Bool().Draw(t, "e-pn") {
-		v := rapid.SampledFrom([]uint64{0, 1, 2, 40, 255, 256, 65535, 1 << 20}).Draw(t, "pn")
+		pool := []uint64{0, 1, 2, 40, 255, 256, 65535, 1 << 20}
+		if o.BigPN {
+			pool = append(pool, 1<<32, 1<<62-1, 1<<62, 1<<64-1)
+		}
+		v := rapid.SampledFrom(pool).Draw(t, "pn")
 		d.InitPN = up(v)
 		pnBig = v > 60
 	}
@@ -289,7 +302,10 @@ func Gen(t *rapid.T, o Options) Desc {
 			d.PNLen = ip(4)
 		}
 	}
-	switch rapid.IntRange(0, 4).Draw(t, "e-token") {
+	switch rapid.IntRange(0, 5).Draw(t, "e-token") {
+	case 4:
+		d.TokenMode = "store"
+		d.TokenPrefix = rapid.SliceOfN(rapid.Byte(), 1, 90).Draw(t, "tokdata")
 	case 1:
 		d.TokenMode = "none"
 	case 2:
@@ -326,13 +342,34 @@ func Gen(t *rapid.T, o Options) Desc {
 	if o.CHLen != nil {
 		L, Lhi = o.CHLen(d)
 	}
+	genPlans := func() {
+		if rapid.IntRange(0, 1).Draw(t, "e-plans") == 0 {
+			return
+		}
+		n := rapid.IntRange(1, 3).Draw(t, "nplans")
+		d.Plans = nil
+		for i := 0; i < n; i++ {
+			p := Plan{}
+			if rapid.Bool().Draw(t, "plan-crypto") {
+				p.CryptoLength = rapid.IntRange(20, 1000).Draw(t, "plan-cl")
+				// an exact PacketSize must leave room for the CRYPTO assigned to the datagram (documented
+				// requirement), so it only comes together with a CRYPTO cap
+				if rapid.Bool().Draw(t, "plan-size") {
+					p.PacketSize = rapid.SampledFrom([]int{1200, 1232, 1250, 1280}).Draw(t, "plan-ps")
+				}
+			}
+			d.Plans = append(d.Plans, p)
+		}
+	}
 	switch rapid.IntRange(0, 7).Draw(t, "e-builder") {
 	case 0:
 		d.Builder = &Builder{Kind: "nil"}
 		d.ClearPlans = true
+		genPlans()
 	case 1:
 		d.Builder = &Builder{Kind: "frames"} // empty QUICFrames: pass-through
 		d.ClearPlans = true
+		genPlans()
 	case 2:
 		if L > 0 && Lhi < 1100 { // a tiling layout is defined on one datagram's slice
 			d.Builder = &Builder{Kind: "frames", Frames: GenTiling(t, L)}
@@ -350,6 +387,7 @@ func Gen(t *rapid.T, o Options) Desc {
 		}
 		d.Builder = b
 		d.ClearPlans = true
+		genPlans()
 	case 5:
 		if L > 0 {
 			d.Builder = &Builder{Kind: "randflight", RandFlight: GenRandFlight(t, L, Lhi)}
